@@ -256,6 +256,45 @@ async fn run(sc: Value) {
                 });
                 results.push(json!({"op": "race_pair", "nids": nids, "oks": oks}));
             }
+            "tick_race" => {
+                // one thread completes the act, another one runs the tick handler, released by one barrier
+                let pi = st["pid_index"].as_u64().unwrap_or(0) as usize;
+                let pid = pids.get(pi).cloned().unwrap_or_default();
+                let tasks = tasks_of(&engine, &pid);
+                let nid = st["nid"].as_str().unwrap_or("");
+                let tid = tasks.iter().filter(|t| t["nid"] == nid).next().map(|t| t["tid"].as_str().unwrap().to_string()).unwrap_or("missing".to_string());
+                let o = vars_of(&st["options"]);
+                let ticks = st["ticks"].as_u64().unwrap_or(1);
+                let spin = st["spin"].as_u64().unwrap_or(0);
+                let barrier = std::sync::Barrier::new(2);
+                let handle = tokio::runtime::Handle::current();
+                let okc = std::thread::scope(|sc| {
+                    let (engine_r, pid_r, tid_r, o_r, barrier_r, handle_r) = (&engine, &pid, &tid, &o, &barrier, &handle);
+                    let h1 = sc.spawn(move || {
+                        let _g = handle_r.enter();
+                        let ex = engine_r.executor();
+                        let a = ex.act();
+                        barrier_r.wait();
+                        // let a few ticks get under way first
+                        for _ in 0..spin { std::hint::spin_loop(); }
+                        a.complete(pid_r, tid_r, o_r).is_ok()
+                    });
+                    let h2 = sc.spawn(move || {
+                        let _g = handle_r.enter();
+                        barrier_r.wait();
+                        // a burst of ticks: the handler runs on a dispatch task, so a single tick would almost always be handled after the client call returned
+                        for _ in 0..ticks {
+                            acts::verif::tick(engine_r);
+                            std::thread::yield_now();
+                        }
+                        true
+                    });
+                    let r = h1.join().unwrap_or(false);
+                    let _ = h2.join();
+                    r
+                });
+                results.push(json!({"op": "tick_race", "nid": nid, "ok": okc}));
+            }
             "burst" => {
                 // the client completes several open acts back to back, without waiting for the engine to settle in between
                 let pi = st["pid_index"].as_u64().unwrap_or(0) as usize;
